@@ -21,8 +21,12 @@ def restore_histories(seed, n):
         e = rng.choice(['txt', 'bin', ''])
         nm = lambda s: s + ('.' + e if e else '')
         a, b = nm('a'), nm('d/b')
-        if rng.random() < 0.15:
+        shape = rng.random()
+        if shape < 0.15:
             a = long_name
+        elif shape < 0.45:
+            # names with further dots (the restored name is <stem>-<version id>.<extension>: only the LAST dot separates)
+            a = rng.choice(['model.v2.bin', 'd/archive.tar.gz', 'data.2024.06.csv', 'd/.hidden.conf', 'trailing.', 'x..y'])
         cfg = {'algo': rng.choice([0, 0, 1, 2, 3]), 'method': rng.choice(['copy', 'copy', 'hardlink', 'symlink', 'reflink']), 'tob': 'auto'}
         par = lambda: {'no_parallel': rng.random() < 0.5}
         V = [bytes(f'v{k}-{i}-{rng.randint(0, 999)}\n', 'ascii') + (b'\x00\xff' if rng.random() < 0.3 else b'') for k in range(4)]
@@ -60,9 +64,33 @@ def restore_histories(seed, n):
     return out
 
 
+def force_histories(seed, n):
+    """`--force` re-commits in awkward states (copy and hard-link methods; the symlink variant is known finding K10): the
+    workspace copy missing, modified, unmodified, a duplicate of another path - a committed version must survive them all"""
+    rng = random.Random(f'c04-force-{seed}')
+    out = []
+    for i in range(n):
+        e = rng.choice(['txt', 'bin', ''])
+        nm = lambda s: s + ('.' + e if e else '')
+        a, b = nm('a'), nm('d/b')
+        cfg = {'algo': rng.choice([0, 0, 1, 2, 3]), 'method': rng.choice(['copy', 'copy', 'hardlink', 'reflink']), 'tob': 'auto'}
+        X, Y, Z = [bytes(f'{t}-force-{i}-{rng.randint(0, 999)}\n', 'ascii') + (b'\x00' if rng.random() < 0.3 else b'') for t in 'XYZ']
+        h = [W(a, X), W(b, X if rng.random() < 0.3 else Y), T([a, b], no_parallel=rng.random() < 0.5)]
+        state = rng.choice(['missing', 'missing', 'modified', 'unmodified', 'both-missing'])
+        if state in ('missing', 'both-missing'): h.append({'op': 'delete', 'path': a})
+        if state == 'both-missing': h.append({'op': 'delete', 'path': b})
+        if state == 'modified': h.append(W(a, Z))
+        tg = rng.choice([[a], [a, b], [b, a]])
+        h.append(CI(tg, force=True, no_parallel=rng.random() < 0.5) if rng.random() < 0.7 else T(tg, force=True, no_parallel=rng.random() < 0.5))
+        h.append(RC([a, b], no_parallel=rng.random() < 0.5))
+        h.append({'op': 'delete', 'path': b}); h.append(RC([a, b]))
+        out.append((f'force-{state}-{i}', cfg, h))
+    return out
+
+
 def run(chk):
     n = 40 if chk.tier == 'quick' else 400
-    return rc.run_property(chk, 'C04', ORACLES, restore=RESTORE, nq=240, extra_corpus=restore_histories(chk.seed, n))
+    return rc.run_property(chk, 'C04', ORACLES, restore=RESTORE, nq=240, extra_corpus=restore_histories(chk.seed, n) + force_histories(chk.seed, n // 2))
 
 
 def replay(chk, data):
